@@ -538,11 +538,11 @@ def r8_request_and_terminator(ctx):
                 shr = _may_shrink(val) and not _floor_one(val)
             if shr:
                 ctx.ob(f.where, "the number of bytes requested from the file is never reduced below the caller's chunk size (a request of 0 bytes reads nothing and is taken for end of file)",
-                       False, u(w), key=f"C01-R8|request-size|{qn}")
+                       False, u(w), key=f"C01-R8|request-size|{qn}", definite=True)
             elif not _floor_one(val):
                 raise Unrecognised(f"{f.where}: chunk size parameter is reassigned in a form the checker cannot bound: {u(w)}")
         if not writes:
-            ctx.ob(f.where, "the chunk size parameter reaches the read request unshrunk (never reassigned)", True, "", key=f"C01-R8|request-size-ok|{qn}")
+            ctx.ob(f.where, "the chunk size parameter reaches the read request unshrunk (never reassigned)", True, "", key=f"C01-R8|request-size-ok|{qn}", definite=True)
         ctx.count("chunk-size parameters checked", 1)
     f = ix.func(PARSER, "NumpyFileReader.read_chunk")
     size = f.params[1]
@@ -577,7 +577,7 @@ def r8_request_and_terminator(ctx):
                 and n.lineno > t.lineno]
         if not cuts:
             ctx.ob(f.where, "the bytes sampled from the pending data to build the end-of-file terminator are cut off again before the terminator is queued "
-                   "(they are already queued)", False, "no cut found", key="C01-R8|terminator-cut")
+                   "(they are already queued)", False, "no cut found", key="C01-R8|terminator-cut", definite=True)
             continue
         sl = cuts[0].value.slice
         if isinstance(sl, ast.Slice) and sl.upper is None and sl.step is None and sl.lower is not None and sym.poly(sl.lower) == k:
@@ -587,7 +587,7 @@ def r8_request_and_terminator(ctx):
         else:
             raise Unrecognised(f"{f.where}: cut of the terminator chunk has an unknown form: {u(cuts[0])}")
         ctx.ob(f.where, "the bytes sampled from the pending data to build the end-of-file terminator are cut off again before the terminator is queued "
-               "(they are already queued)", ok, u(cuts[0]), key="C01-R8|terminator-cut")
+               "(they are already queued)", ok, u(cuts[0]), key="C01-R8|terminator-cut", definite=True)
     # (c) multi-line FASTA CR sniff
     m = ix.func("bionumpy.io.multiline_buffer", "MultiLineFastaBuffer._modify_ends_for_carriage_returns")
     le, data = m.params[1], m.params[2]
